@@ -94,7 +94,12 @@ def main():
         for m in sel:
             m["props"] = [a[1]]
     for m in sel:
-        r = run(m, baseline, tier)
+        try:
+            r = run(m, baseline, tier)
+        except SystemExit as e:
+            print("  SKIPPED:", e)
+            revert()
+            continue
         print(json.dumps(r))
 
 
